@@ -30,7 +30,11 @@ def arc_tree(r):
             cand = [m for m in members if not m["name"].endswith("/")]
             if cand:
                 r.choice(cand)["encrypted"] = True      # a member that cannot be opened
-        ents.append({"path": name, "kind": "z", "members": members, "compress": r.chance(1, 2), "mtime": 1700000000 + i})
+        ent = {"path": name, "kind": "z", "members": members, "compress": r.chance(1, 2), "mtime": 1700000000 + i}
+        if r.chance(1, 4):
+            # a launcher script or an executable stub in front of the first record: unzip, zipfile and the zip crate read it
+            ent["prefix"] = r.choice([b"#!/bin/sh\nexec java -jar \"$0\" \"$@\"\n", b"MZ" + b"\0" * 62 + b"stub", b"\n", b"PK-not-a-record"])
+        ents.append(ent)
     if r.chance(1, 2):
         # a directory whose name ends in an archive extension is a directory: listed and entered like any other
         d = r.choice(dirs)
@@ -135,6 +139,23 @@ def run(ctx):
                                         ctx.oracle_fail("%s of an archive member does not follow its name (a trailing slash marks a directory)" % colname, case,
                                                         detail={"member": rw[key].decode("utf-8", "replace"), "got": rw[ci].decode()})
                                         break
+                    # the extension of a member is that of its last path component (the text after its last dot, none for a
+                    # dot-file or a name without a dot), whatever the directories before it are called
+                    if "ext" in cols:
+                        ci = cols.index("ext")
+                        for rw in rows:
+                            if rw[key].startswith(b"[") and b"] " in rw[key]:
+                                mname = rw[key].split(b"] ", 1)[1].decode("utf-8", "replace")
+                                comps = [c for c in mname.split("/") if c not in ("", ".")]
+                                fn = comps[-1] if comps else ""
+                                i = fn.rfind(".")
+                                expect = "" if (fn == ".." or i <= 0) else fn[i + 1:]
+                                cell = rw[ci].decode("utf-8", "replace")
+                                cell = cell.split("] ", 1)[1] if cell.startswith("[") and "] " in cell else cell   # shown as `[archive] ext`
+                                if cell != expect:
+                                    ctx.oracle_fail("ext of an archive member is not the extension of its last path component", case,
+                                                    detail={"member": mname, "got": rw[ci].decode("utf-8", "replace"), "want": expect})
+                                    break
                     if sorted(got) != sorted(want):
                         ctx.oracle_fail("archive members are not reported exactly once each", case,
                                         detail={"got": len(got), "want": len(want)})
